@@ -146,6 +146,23 @@ func TestC04(t *testing.T) {
 	encs := c04Encodings()
 	progs := c04Programs()
 	var mu sync.Mutex
+	// every input also in reverse order (what a reader caches about an earlier stream or
+	// frame must not leak into a later one, whichever comes first)
+	for n, text := range c04Inputs {
+		if strings.HasSuffix(n, "(reversed)") {
+			continue
+		}
+		vals, err := readAll(zsonio.NewReader(zed.NewContext(), strings.NewReader(text)))
+		if err != nil {
+			t.Fatalf("harness input %s: %v", n, err)
+		}
+		var b strings.Builder
+		for i := len(vals) - 1; i >= 0; i-- {
+			b.WriteString(zson.FormatValue(vals[i]))
+			b.WriteByte(' ')
+		}
+		c04Inputs[n+" (reversed)"] = b.String()
+	}
 	var names []string
 	for n := range c04Inputs {
 		names = append(names, n)
@@ -228,7 +245,7 @@ func TestC04(t *testing.T) {
 	run.Set("query_runs", runs)
 	run.Sample(map[string]any{"inputs": names, "programs": len(progs), "encodings": len(encs), "example_encoding": encs[len(encs)/2].name, "example_program": progs[len(progs)/3].src})
 	run.Set("exhaustive", true)
-	run.Set("rule", "programs: 16 filter/search atoms (keyword, quoted, globs, field==literal, literal in field, regexp, grep, numeric/ip/cidr comparisons, has, ==null), their and/or/not combinations (every fifth pair), type functions (typeof, len, is, under, nameof, fields, kind), shaping (cut, put, shape, fuse) and aggregations; inputs: 8 curated sequences in which the searched token occurs as a value, only as a field name, only inside array/map/union-wrapped records, only in a type value, only in a named type, plus numeric/null, ip/net and mixed-shape inputs; encodings: in-memory reference (zbuf.Array), ZSON, ZJSON, VNG, and ZNG with compress x frame threshold {1,64,default} x end-of-stream between values x threads {1,2} x read size {default,1}. Each program's output on each encoding must equal its output on the in-memory reference (sequence for order-preserving programs, multiset for aggregations)")
+	run.Set("rule", "programs: 16 filter/search atoms (keyword, quoted, globs, field==literal, literal in field, regexp, grep, numeric/ip/cidr comparisons, has, ==null), their and/or/not combinations (every fifth pair), type functions (typeof, len, is, under, nameof, fields, kind), shaping (cut, put, shape, fuse) and aggregations; inputs: 8 curated sequences, each also in reverse order, in which the searched token occurs as a value, only as a field name, only inside array/map/union-wrapped records, only in a type value, only in a named type, plus numeric/null, ip/net and mixed-shape inputs; encodings: in-memory reference (zbuf.Array), ZSON, ZJSON, VNG, and ZNG with compress x frame threshold {1,64,default} x end-of-stream between values x threads {1,2} x read size {default,1}. Each program's output on each encoding must equal its output on the in-memory reference (sequence for order-preserving programs, multiset for aggregations)")
 	if os.Getenv("VERIF_POISON") == "1" {
 		run.Set("adversarial_buffer_pool", "zngio frame buffers are overwritten with 0xdb when released (build overlay of zio/zngio/buffer.go generated from the working tree)")
 	} else {
